@@ -31,7 +31,7 @@ class Gen:
             max_t=4, max_m=4, p_nonexcl=0.25, p_nested=0.15, p_struct=0.45, p_alias=0.2,
             p_rel=0.5, p_two_mods=0.2, p_fsm=0.12, p_wit=0.5, p_validate=0.2, p_enable=0.3,
             p_defect=0.0, sched="eager", p_body_in_struct=0.15, rdep_rel=True, nested=True,
-            p_rdyrun=0.0, p_badrun=0.0, p_chain=0.0, p_relalias=0.0, p_xmod=0.0, p_constenable=0.0, p_always=0.0, wit_rounds=1, p_fwdarg=0.0,
+            p_rdyrun=0.0, p_badrun=0.0, p_chain=0.0, p_relalias=0.0, p_xmod=0.0, p_constenable=0.0, p_always=0.0, wit_rounds=1, p_fwdarg=0.0, fwd_safe=True,
         )
         self.opt.update(opt)
         self.nin = 0
@@ -192,6 +192,15 @@ class Gen:
                 B["rdyrun"] = a
                 if not any(x["kind"] == "before" and x["a"] == a and x["b"] == b for x in self.rels):
                     self.rels.append(dict(a=a, b=b, kind="before", prio="L", rdep=o["rdep_rel"] and r.random() < 0.3))
+        if o["p_fwdarg"] > 0 and o["fwd_safe"]:
+            # keep out of the region of the known C10 finding (a forwarding method with several call sites in
+            # front of a validating method elaborates into a combinational cycle: the simulation would not settle)
+            while True:
+                bad = unsafe_forwarders(self.bodies, self.sites)
+                if not bad:
+                    break
+                s = bad[0]
+                s["argk"], s["argv"] = "c", r.randint(0, 3)
         return dict(nin=self.nin, nargs=self.nargs, bodies=self.bodies, sites=self.sites, wits=self.wits,
                     rels=self.rels, sched=o["sched"], roots=[roots[1], roots[2]], nmods=nmods, const0=self.const0)
 
@@ -244,7 +253,7 @@ class Gen:
                 s["en"] = 0
                 s["enc"] = r.choice(["T", "C1"])
         if C["hasarg"] and o["p_fwdarg"] > 0 and self.bodies[caller - 1]["kind"] == "M" and self.bodies[caller - 1]["hasarg"] \
-                and r.random() < o["p_fwdarg"]:
+                and not self.bodies[caller - 1]["nonexcl"] and r.random() < o["p_fwdarg"]:
             s["argk"], s["argv"] = "f", r.randint(0, 3)
         elif C["hasarg"]:
             if r.random() < 0.7:
@@ -325,6 +334,37 @@ class Gen:
         if hasd:
             cases.append({"pat": -1, "ch": chs[-1]})
         return {"t": "switch", "test": [self.inp(), self.inp()], "cases": cases}
+
+
+def unsafe_forwarders(bodies, sites):
+    """Forwarding sites ("f") of methods that have (transitively, through forwarding) two or more call sites and
+    whose forwarded value reaches a method with validate_arguments: the shape of the known C10 finding."""
+    ncallers = {}
+    for s in sites:
+        ncallers[s["callee"]] = ncallers.get(s["callee"], 0) + 1
+
+    def reaches_validated(m, seen=()):
+        for s in sites:
+            if s["caller"] == m and s["argk"] == "f":
+                c = s["callee"]
+                if bodies[c - 1]["validate"] or (c not in seen and reaches_validated(c, seen + (m,))):
+                    return True
+        return False
+
+    def multi(m, seen=()):
+        if ncallers.get(m, 0) >= 2:
+            return True
+        return any(s["callee"] == m and s["argk"] == "f" and s["caller"] not in seen and multi(s["caller"], seen + (m,))
+                   for s in sites)
+
+    out = []
+    for s in sites:
+        if s["argk"] != "f":
+            continue
+        m, c = s["caller"], s["callee"]
+        if multi(m) and (bodies[c - 1]["validate"] or reaches_validated(c)):
+            out.append(s)
+    return out
 
 
 def ring_design(rng: random.Random, sched="eager"):
